@@ -153,8 +153,10 @@ class LasWriter:
             restore_needed = True
 
         try:
-            self.header.grow(points)
+            # count the points only once the destination took them: a failed
+            # write must not leave a header announcing points that are not stored
             self.point_writer.write_points(points)
+            self.header.grow(points)
         finally:
             if restore_needed:
                 points.offsets, points.scales = saved_offsets, saved_scales
